@@ -7,7 +7,18 @@ import sys
 from . import runner
 
 
+def _disable_thp():
+    """transparent huge pages make every copy-on-write fault of a forked run copy 2 MB; switch them off for this
+    process tree (inherited by fork/exec)"""
+    try:
+        import ctypes
+        ctypes.CDLL(None, use_errno=True).prctl(41, 1, 0, 0, 0)  # PR_SET_THP_DISABLE
+    except Exception:  # noqa: BLE001
+        pass
+
+
 def main(argv=None):
+    _disable_thp()
     ap = argparse.ArgumentParser(prog='check')
     ap.add_argument('check_id')
     ap.add_argument('--tier', default=os.environ.get('VERIF_TIER') or 'quick', choices=['quick', 'thorough'])
